@@ -528,3 +528,20 @@ def value_defs(fn, op, depth=8, _seen=None):
         else:
             out.append(("other", payload, dbb))
     return out
+
+
+def some_edge_targets(fn, prog, call_bb, variant="Some"):
+    """targets of the switch edges that establish `<result of the call in call_bb> is <variant>` (through `?`/poll wrappers)"""
+    from . import guards
+    out = []
+    for sb in sorted(fn.live_blocks()):
+        if fn.blocks[sb]["t"]["k"] != "switch" or fn.is_cleanup(sb):
+            continue
+        for tb, lab in fn.succ(sb):
+            try:
+                facts = guards.derive(fn, prog, guards.edge_facts(fn, prog, sb, {lab}))
+            except Exception:
+                facts = []
+            if any(fa.kind == "variant" and fa.allowed == {variant} and fa.steps and fa.steps[-1][0] == "call" and fa.steps[-1][1].bb == call_bb for fa in facts):
+                out.append(tb)
+    return out
